@@ -53,6 +53,11 @@ func VerifC16_v1simple_main() {
 		vAssert(vWaitCount() == 0, "C07/C19: the feedback channel is closed only after every handler has returned")
 		vAssert(prioDone, "C16: the wrapped discipline has completed before the channels are closed")
 	})
+	vOnClose(s.err, func() {
+		// Err() is a documented termination signal: when it closes nothing of the discipline may still be running
+		vAssert(vWaitCount() == 0, "C07/C19: the error channel of the simplified discipline is closed only after every handler has returned")
+		vAssert(prioDone, "C19: the wrapped discipline has completed before the error channel is closed")
+	})
 	vOnClose(s.output, func() {
 		order = append(order, "close-output")
 		vAssert(vWaitCount() == 0, "C07/C19: the output channel is closed only after every handler has returned")
@@ -225,4 +230,3 @@ func VerifC01_v1simple_handler() {
 		}
 	}
 }
-
